@@ -23,7 +23,7 @@ func init() {
 			"non-trivial = the configuration has >= 1 labelled block and >= 3 items; distinct by native rendering + spec kinds",
 		Assumptions: []string{"total block order is compared only for order-preserving encodings; per-type order always (json/spec.md cannot carry cross-type order when blocks are grouped by type)", "label-count mismatches are excluded (the JSON reading is schema-directed)"},
 		Quick:       Plan{Batches: 16, PerBatch: 1500, MinNonTrivial: 8000},
-		Thorough:    Plan{Batches: 64, PerBatch: 12000, MinNonTrivial: 200000},
+		Thorough:    Plan{Batches: 64, PerBatch: 24000, MinNonTrivial: 200000},
 		Case:        c03Case,
 	})
 }
